@@ -27,7 +27,7 @@ META = {
   rule="packets built through the public constructors: one record of each of the 43 RDATA kinds alone in each section, then random packets (0..8 entries per section, all classes, cache-flush/unicast bits, boundary integers, binary labels, names up to 255 bytes, with/without OPT, every named opcode/rcode); build_bytes_vec compared byte for byte with the model, Packet::parse of the bytes compared with the model, and the intrinsic oracle parse(build(p)) == p on every field; distinct = distinct (request, output); the excluded point TXT-without-strings is run as the last case",
   assumptions=STD, timeout=dict(quick=600, thorough=7200)),
  "C03": dict(
-  extra_modules=["C03Length", "Tie", "C05C03More"],
+  extra_modules=["C03Length", "Tie", "C05C03More", "C03Any"],
   rule="packets as C02 generated with heavy suffix sharing (label pool of 8), plus large messages straddling 16 KiB (padding records, then names repeated on both sides of offset 16383) and up to ~60 KB; build_bytes_vec_compressed compared byte for byte with the model; oracle: parse(compressed) == parse(plain) and len(compressed) <= len(plain); distinct = distinct (request, output)",
   assumptions=STD, timeout=dict(quick=600, thorough=7200)),
  "C05": dict(
